@@ -252,3 +252,22 @@ pub fn c20_cip_slice_read_items() {
     cover!(true, "end reached");
     sym::forget((a, src));
 }
+
+// @h prop=C20 tier=quick kind=proof inst="ColumnsRegion<MirrorRegion<u8>>: a NARROWER row pushed as ReadColumns (region-backed) after a wider row" bounds="target holds a 3-cell row; a 1-cell row is pushed as a read item of another region; symbolic cells" desc="the read-item form behaves like the slice form: the earlier, wider row keeps its length and cells, the new row gets the next dense index"
+#[cfg_attr(kani, kani::proof, kani::unwind(12))]
+pub fn c20_columns_narrower_read_item() {
+    let w = sym::bytes::<3>();
+    let n = sym::bytes::<1>();
+    let mut a = CR::default();
+    let i0 = a.push(w.as_slice());
+    let mut other = CR::default();
+    let io = other.push(n.as_slice());
+    let i1 = a.push(other.index(io));
+    assert!(i0 == 0 && i1 == 1, "C20: rows pushed as read items do not get dense indices");
+    let wide = a.index(i0);
+    assert!(wide.len() == 3 && wide.get(1) == w[1] && wide.get(2) == w[2], "C20: a wider earlier row was damaged by pushing a narrower row as a read item");
+    assert!(wide.iter().count() == 3, "C20: a wider earlier row iterates short after a narrower read item was pushed");
+    assert!(a.index(i1).len() == 1 && a.index(i1).get(0) == n[0], "C20: narrower row pushed as a read item reads differently");
+    cover!(true, "end reached");
+    sym::forget((a, other));
+}
